@@ -1214,3 +1214,21 @@ package main
 //@ func ParseMessage
 //@   sensures nn: err == nil ==> result != nil
 
+//@ func (*Proxy).HandleRawMessage
+//@   srequires nn-msg: msg != nil
+
+//@ iface MessageHandler.HandleRawMessage
+//@   srequires nn-msg: msg != nil
+
+//@ func (*Proxy).ConnectionAccepted
+//@   srequires nn-conn: !isNil(conn)
+
+//@ iface ConnectionAcceptedListener.ConnectionAccepted
+//@   srequires nn-conn: !isNil(conn)
+
+//@ func (*Via).AddViaParam
+//@   srequires nn-param: viaParam != nil
+
+//@ func (*RecordRoute).AddRecRoute
+//@   srequires nn-param: recRoute != nil
+
